@@ -36,11 +36,18 @@ CASES = [
  ("C11", "random.py", "        if query is None or query.user_id is None:", "        if not query or not query.user_id:", "break"),
  ("C18", "pipeline/_impl.py", "        elif options.rng is None or isinstance(options.rng, (Generator, BitGenerator)):", "        elif not options.rng or isinstance(options.rng, (Generator, BitGenerator)):", "break"),
  ("C18", "pipeline/_impl.py", "c_opts = options if seed is None else replace(options, rng=seed.spawn(1)[0])", "c_opts = options if not seed else replace(options, rng=seed.spawn(1)[0])", "break"),
+ ("C13", "pipeline/config.py", "        return None if types is None else sorted(types)", "        return None if types is None else list(types)", "break"),
+ ("C13", "pipeline/builder.py", "                    c_cfg.inputs = dict(sorted(edges.get(name, {}).items(), key=lambda kv: kv[0]))", "                    c_cfg.inputs = edges.get(name, {})", "break"),
+ ("C13", "pipeline/builder.py", "        cfg.aliases = {a: t.name for (a, t) in sorted(self._aliases.items(), key=lambda kv: kv[0])}", "        cfg.aliases = {a: t.name for (a, t) in self._aliases.items()}", "break"),
+ ("C13", "pipeline/builder.py", "        cfg.aliases = {a: t.name for (a, t) in sorted(self._aliases.items(), key=lambda kv: kv[0])}", "        cfg.aliases = {a: t.name for (a, t) in sorted(self._aliases.items())}", "keep"),
  ("C14", "pipeline/builder.py", "            builder._edges[name] = dict(spec.inputs)", "            builder._edges[name] = spec.inputs", "break"),
  ("C14", "pipeline/builder.py", "        edges = deepcopy(self._edges)", "        edges = dict(self._edges)", "break"),
  ("C14", "pipeline/builder.py", "        edges = deepcopy(self._edges)", "        edges = {n: dict(w) for (n, w) in self._edges.items()}", "keep"),
  ("C14", "data/builder.py", "        return DataContainer(self.schema.model_copy(deep=True), tables)", "        return DataContainer(self.schema.model_copy(), tables)", "break"),
  ("C14", "data/builder.py", "            self.schema = name.schema.model_copy(deep=True)", "            self.schema = name.schema", "break"),
+ ("C16", "data/items.py", "        if self._numbers is None:\n            if self._vocab is None:", "        if not self._numbers:\n            if self._vocab is None:", "break"),
+ ("C16", "data/items.py", "        if vocabulary is not None and vocabulary is not self._vocab:", "        if vocabulary is not None:", "break"),
+ ("C16", "data/items.py", "        if missing == \"error\" and np.any(self._numbers.numpy() < 0):\n            raise KeyError(\"item IDs\")\n", "", "break"),
  ("C18", "basic/popularity.py", "        if hasattr(self, \"item_scores_\") and not options.retrain:\n            return\n\n        _log.info(\"counting item popularity\")", "        if hasattr(self, \"item_scores_\") or not options.retrain:\n            return\n\n        _log.info(\"counting item popularity\")", "break"),
  ("C18", "knn/item.py", "        if hasattr(self, \"items_\") and not options.retrain:", "        if not options.retrain and hasattr(self, \"items_\"):", "keep"),
  ("C18", "basic/bias.py", "        if hasattr(self, \"model_\") and not options.retrain:", "        if hasattr(self, \"model_\"):", "break"),
